@@ -118,6 +118,11 @@ class Ctx:
                     if nm and nm.startswith('_') and not nm.startswith('__') and \
                             nm not in PINNED_PRIVATE and nm in known:
                         out.add(nm)
+            if getattr(f.node, '_inlined_helpers', False):
+                # helpers were read in place: the function has been restructured since the
+                # pinned tree, and a structural rule that misses its construct in the new shape
+                # has not shown that the construct is absent
+                out.add('(helper code read in place)')
             cache[k] = out
         return cache[k]
 
